@@ -202,6 +202,25 @@ def run_graph(ctx, spec, rng, n_ops):
     for perm in ([states, states[::-1]] if len(states) > 1 else [states]):
       mm = nnx.merge(out[0], *perm)
       ctx.check(G.canon(mm) == c0, 'partition:merge_permuted_not_isomorphic', lambda: dict(filters=fds))
+    # equal content, different assembly: a State is a mapping - its insertion order must not matter to merge
+    if all(isinstance(x, nnx.State) for x in states):
+      variants = []
+      if len(states) > 1:
+        variants.append(('merge_state', (statelib.merge_state(*states[::-1]),)))
+        variants.append(('or', (states[-1] | states[0],) + tuple(states[1:-1])))
+      flat_all = [kv for x in states for kv in statelib.to_flat_state(x)]
+      variants.append(('from_flat_state(reversed)', (statelib.from_flat_state(flat_all[::-1]),)))
+      shuffled = list(flat_all)
+      rng.shuffle(shuffled)
+      variants.append(('from_flat_state(shuffled)', (statelib.from_flat_state(shuffled),)))
+      variants.append(('pure nested dict', (_nested_dict(shuffled),)))
+      for vname, sts in variants:
+        try:
+          mm = nnx.merge(out[0], *sts)
+          ok = G.canon(mm) == c0
+        except Exception as e:  # noqa: BLE001
+          ok = False
+        ctx.check(ok, 'partition:merge_depends_on_state_insertion_order', lambda: dict(filters=fds, variant=vname))
   untouched('split(filters)')
 
   # ---- iter_graph: every graph node and Variable exactly once
@@ -300,6 +319,16 @@ def run_graph(ctx, spec, rng, n_ops):
         if not still:
           ctx.check(G.canon(g) == G.canon(sh.root), 'pop:collateral_change', lambda: dict(filters=fds2))
   check_quiescent(ctx)
+
+
+def _nested_dict(pairs):
+  out = {}
+  for path, v in pairs:
+    cur = out
+    for k in path[:-1]:
+      cur = cur.setdefault(k, {})
+    cur[path[-1]] = v
+  return out
 
 
 def _is_empty(x):
